@@ -71,7 +71,8 @@ impl OutputType {
             None,
             &PagerCfg::default(),
         )
-        .unwrap();
+        // (e.g. a DELTA_PAGER value that cannot be parsed: an error message, not a panic)
+        .unwrap_or_else(|err| crate::fatal(format!("{err}")));
         let mut writer = output_type.handle().unwrap();
         write!(&mut writer, "{}", data)
     }
